@@ -26,11 +26,12 @@ func (k Keeper) AllocateIncentive(ctx sdk.Context, poolId uint64, sender sdk.Acc
 	if !liquidity.IsPositive() {
 		return types.ErrEmptyLiquidity
 	}
-	feeGrowth := sdk.NewDecCoinsFromCoins(incentiveCoins...).QuoDecTruncate(liquidity)
-	err = k.AddToAccumulator(ctx, feeAccumulator, feeGrowth)
-	if err != nil {
+	// take the coins first: the caller in BeginBlock only logs an error and does not roll back,
+	// so nothing may be accrued to the positions unless the fee account has received it
+	if err := k.bankKeeper.SendCoins(ctx, sender, pool.GetFeesAddress(), incentiveCoins); err != nil {
 		return err
 	}
 
-	return k.bankKeeper.SendCoins(ctx, sender, pool.GetFeesAddress(), incentiveCoins)
+	feeGrowth := sdk.NewDecCoinsFromCoins(incentiveCoins...).QuoDecTruncate(liquidity)
+	return k.AddToAccumulator(ctx, feeAccumulator, feeGrowth)
 }
